@@ -120,7 +120,7 @@ CHECKS.update({
 CHECKS.update({
  "C14": ("E1-choice-tree",
          "enumeration of diagnostic-producing programs x emission configurations; the stream written by the real DiagnosticEmitter (and by the real binary) is re-parsed independently and compared with the diagnostics obtained through the API",
-         "44 diagnostic sources (one per diagnostic kind reachable from text, incl. notes with and without spans, multi-line spans, hostile user text) alone and in all ordered pairs, in one and two files and two layouts x {human, json} x colour on/off x --allow none/Deprecated/All are emitted into a buffer by the real emitter with options parsed by the real clap definition; a process-level slice runs the binary for totals, exit status, span-less diagnostics, diagnostics from the generator phase and hostile file names, with the environment asking for colours. JSON lines must parse to objects with exactly the five keys and equal the API values in order; human output must have one header per non-allowed diagnostic with its notes and locations; totals and exit status agree; no ESC byte with colours disabled; allowed lints leave no trace.",
+         "46 diagnostic sources (one per diagnostic kind reachable from text, incl. notes with and without spans, multi-line spans, hostile user text) alone and in all ordered pairs, in one and two files and two layouts x {human, json} x colour on/off x --allow none/Deprecated/All are emitted into a buffer by the real emitter with options parsed by the real clap definition; a process-level slice runs the binary for totals, exit status, span-less diagnostics, diagnostics from the generator phase and hostile file names, with the environment asking for colours. JSON lines must parse to objects with exactly the five keys and equal the API values in order; human output must have one header per non-allowed diagnostic with its notes and locations; totals and exit status agree; no ESC byte with colours disabled; allowed lints leave no trace.",
          "trusted: the stream parsers in mc/src/props/c14.rs; serde_json for parsing; multi-line messages are compared on their first line in human format",
          "DESIGN.md §4 C14"),
 })
